@@ -94,7 +94,9 @@ func (h *c20Host) instances() map[string]c20InstInfo {
 	out := map[string]c20InstInfo{}
 	for n, c := range h.mc.decoratorControllers {
 		info := c20InstInfo{ptr: uintptr(unsafe.Pointer(c)), obj: c}
-		info.specID = c20SpecID(c.dc.Spec.ResyncPeriodSeconds, c.dc.Spec.Hooks != nil, func() *v1alpha1.Hook { return c.dc.Spec.Hooks.Sync })
+		if len(c.dc.Spec.Resources) > 0 {
+			info.specID = c20SpecID(c.dc.Spec.Resources[0].LabelSelector)
+		}
 		out[n] = info
 	}
 	return out
@@ -122,25 +124,25 @@ func (h *c20Host) apply(realName, short string, s *c20Spec, crd string, touch in
 		rule := v1alpha1.DecoratorControllerResourceRule{}
 		rule.APIVersion = p.APIVersion
 		rule.Resource = p.Resource
-		rule.LabelSelector = c20Selector(short, false)
+		rule.LabelSelector = c20Selector(short, s.ID, false)
+		rule.IgnoreStatusChanges = c20BoolPtr(s.IgnoreStatus)
 		if p.BadSelector {
 			// alternately the label and the annotation selector is the unusable one
 			if s.ID%2 == 0 {
-				rule.LabelSelector = c20Selector(short, true)
+				rule.LabelSelector = c20Selector(short, s.ID, true)
 			} else {
-				rule.AnnotationSelector = &v1alpha1.AnnotationSelector{MatchExpressions: c20Selector(short, true).MatchExpressions}
+				rule.AnnotationSelector = &v1alpha1.AnnotationSelector{MatchExpressions: c20Selector(short, s.ID, true).MatchExpressions}
 			}
 		}
 		dc.Spec.Resources = append(dc.Spec.Resources, rule)
 	}
-	rs := c20Resync(s)
-	dc.Spec.ResyncPeriodSeconds = &rs
+	dc.Spec.ResyncPeriodSeconds = c20Resync(s)
 	for _, k := range s.Children {
 		rule := v1alpha1.DecoratorControllerAttachmentRule{}
 		rule.APIVersion = k.APIVersion
 		rule.Resource = k.Resource
 		if k.Strategy != "" {
-			rule.UpdateStrategy = &v1alpha1.DecoratorControllerAttachmentUpdateStrategy{Method: v1alpha1.ChildUpdateMethod(k.Strategy)}
+			rule.UpdateStrategy = &v1alpha1.DecoratorControllerAttachmentUpdateStrategy{Method: c20Method(k.Strategy)}
 		}
 		dc.Spec.Attachments = append(dc.Spec.Attachments, rule)
 	}
